@@ -184,19 +184,12 @@ class Check:
         for n in names:
             body += 'Goal True. idtac "@@THM %s". exact I. Qed.\nPrint Assumptions %s.\n' % (n, n)
         body += 'Goal True. idtac "@@END". exact I. Qed.\n'
-        path = os.path.join(self.coqdir, "AssumptionsCheck.v")
+        # written under the run's own work dir: concurrent runs of one check must not race
+        adir = os.path.join(self.work, "assumptions")
+        os.makedirs(adir, exist_ok=True)
+        path = os.path.join(adir, "AssumptionsCheck.v")
         open(path, "w").write(body)
-        rc, out = sh(["coqc", "-Q", ".", self.engine, "AssumptionsCheck.v"], cwd=self.coqdir, timeout=600)
-        for ext in (".vo", ".vok", ".vos", ".glob"):
-            try:
-                os.remove(os.path.join(self.coqdir, "AssumptionsCheck" + ext))
-            except OSError:
-                pass
-        try:
-            os.remove(os.path.join(self.coqdir, ".AssumptionsCheck.aux"))
-        except OSError:
-            pass
-        os.remove(path)
+        rc, out = sh(["coqc", "-noglob", "-Q", self.coqdir, self.engine, "AssumptionsCheck.v"], cwd=adir, timeout=900)
         if rc != 0:
             self.coq_ok = False
             self.coq_error = "Print Assumptions run failed: " + out[-1500:]
